@@ -5,6 +5,10 @@ Steps: fresh detached worktree of /repo HEAD; demo passes there; apply patch; de
 Nothing is ever applied to /repo itself."""
 import json, os, shutil, subprocess, sys, time
 
+# the pinned suite binds fixed ports: run it in a private network namespace so that suites running elsewhere
+# on this machine (seeding agents) cannot collide with it
+NETNS = "unshare -n sh -c 'ip link set lo up; %s'"
+
 pid = sys.argv[1]
 extra = sys.argv[2:]
 ROUND = os.environ.get("SEED_ROUND", "1")
@@ -44,7 +48,7 @@ try:
         rc, o = demo(wt)
         res["demo_changed"] = {"rc": rc, "out": o[-600:]}
         t0 = time.time()
-        r = sh("cd %s && /venv/bin/python -m pytest -q -p no:cacheprovider --timeout=900 --continue-on-collection-errors 2>&1 | tail -15" % wt, timeout=2400)
+        r = sh(NETNS % ("cd %s && /venv/bin/python -m pytest -q -p no:cacheprovider --timeout=900 --continue-on-collection-errors 2>&1 | tail -15" % wt), timeout=2400)
         failed = set()
         for line in r.stdout.splitlines():
             if line.startswith("FAILED") or line.startswith("ERROR"):
@@ -56,7 +60,7 @@ try:
         for name in new:
             okk = False
             for attempt in range(3):
-                r2 = sh("cd %s && /venv/bin/python -m pytest -q -p no:cacheprovider --timeout=600 -k %s ioflo 2>&1 | tail -3" % (wt, name), timeout=1200)
+                r2 = sh(NETNS % ("cd %s && /venv/bin/python -m pytest -q -p no:cacheprovider --timeout=600 -k %s ioflo 2>&1 | tail -3" % (wt, name)), timeout=1200)
                 if " passed" in r2.stdout and " failed" not in r2.stdout:
                     okk = True
                     break
